@@ -534,12 +534,15 @@ def rule_semantics_of_helpers(repo, rep):
             if not (len(body) == 2 and isinstance(body[0], ast.If) and isinstance(body[1], ast.Return)):
                 continue
             t = body[0].test
-            if not (isinstance(t, ast.Compare) and str(norm(t.left)) == "op.attrs['padding']" and isinstance(t.ops[0], ast.Eq) and str(norm(t.comparators[0])).startswith("Padding.")):
+            if not (isinstance(t, ast.Compare) and len(t.ops) == 1 and isinstance(t.ops[0], ast.Eq)):
+                continue
+            sides = [str(norm(t.left)), str(norm(t.comparators[0]))]
+            if "op.attrs['padding']" not in sides or not any(x.startswith("Padding.") for x in sides):
                 continue
             rv = body[1].value
             if not (isinstance(rv, ast.Tuple) and isinstance(rv.elts[0], ast.Constant) and rv.elts[0].value is True):
                 continue
-            mode = str(norm(t.comparators[0])).split(".")[-1]
+            mode = [x for x in sides if x.startswith("Padding.")][0].split(".")[-1]
             doc = ast.get_docstring(fn) or ""
             n_p += 1
             rep.check(doc.startswith(f"{mode} padding:"), "C16-b", f"ethosu/vela/{mname}.py:{q}", f"a constraint enforced only for {mode} padding says so in its text ('{mode} padding: ...')",
